@@ -37,6 +37,12 @@ type Config struct {
 	Packages  []string          `json:"packages"`
 	Overlay   map[string]string `json:"overlay"`
 	Stubs     map[string]string `json:"stubs"`
+	// Rewrite: repo-relative source file -> list of [old, new] textual replacements applied to the
+	// file's CURRENT content (every occurrence; each pair must match at least once, otherwise the
+	// harness is stale and the run is inconclusive); the key "append" adds text at the end. This is
+	// how environment calls (os.Rename, os.Open ...) in the code under test are redirected to the
+	// environment model, identically for the engine and for native replay.
+	Rewrite map[string][][2]string `json:"rewrite"`
 	Blackhole []string          `json:"blackhole"`
 	Env       map[string]string `json:"env"`
 	MaxProcs  int               `json:"gomaxprocs"`
@@ -57,7 +63,7 @@ var defaultBlackhole = []string{
 	"github.com/prometheus", "github.com/sourcegraph/log", "go.opentelemetry.io", "github.com/opentracing",
 	"google.golang.org/grpc", "google.golang.org/protobuf", "runtime/pprof", "runtime/trace", "runtime/debug", "net/http", "net",
 	"runtime", "internal/cpu", "internal/godebug", "internal/poll", "internal/syscall", "syscall", "internal/testlog",
-	"github.com/sourcegraph/zoekt/internal/trace", "go.uber.org", "github.com/uber", "golang.org/x/net", "golang.org/x/sys",
+	"github.com/sourcegraph/zoekt/internal/trace", "go.uber.org/zap", "go.uber.org/multierr", "go.uber.org/goleak", "github.com/uber", "golang.org/x/net", "golang.org/x/sys",
 	"internal/runtime", "internal/race", "internal/msan", "internal/asan", "log/slog", "expvar", "github.com/getsentry", "github.com/shirou",
 	"github.com/keegancsmith/tmpfriend", "cloud.google.com", "github.com/felixge", "github.com/rs/xid", "github.com/go-logr", "os/signal", "internal/bisect",
 	"crypto", "hash/maphash", "os/exec", "os/user", "mime", "html/template", "text/template", "encoding/gob", "go.uber.org/automaxprocs",
@@ -111,6 +117,26 @@ func main() {
 			fatal(err)
 		}
 		overlay[filepath.Join(*repo, dst)] = b
+	}
+	for rel, pairs := range cfg.Rewrite {
+		b, err := os.ReadFile(filepath.Join(*repo, rel))
+		if err != nil {
+			fatal(err)
+		}
+		txt := string(b)
+		for _, pr := range pairs {
+			if pr[0] == "append" {
+				txt += "\n" + pr[1] + "\n"
+				continue
+			}
+			if !strings.Contains(txt, pr[0]) {
+				res := &RunResult{Property: cfg.Property, Tier: *tier, Errors: []string{fmt.Sprintf("rewrite of %s: pattern %q no longer occurs in the source (harness is stale)", rel, pr[0])}}
+				writeResult(*out, res)
+				os.Exit(2)
+			}
+			txt = strings.ReplaceAll(txt, pr[0], pr[1])
+		}
+		overlay[filepath.Join(*repo, rel)] = []byte(txt)
 	}
 	pcfg := &packages.Config{
 		Mode:       packages.LoadAllSyntax,
